@@ -270,6 +270,26 @@ def compare_history(run, m, td, case, consolidated, is_current):
         else:
             from c11_canon import first_diff
             run.oracle_fail("pickle_equals_now", case, f"{how} returned a tensordict that differs from the one serialised: {first_diff(now, got)}; snapshot was {m_fresh}", f"{how}:{m_fresh}")
+    # `.to(device)` of a consolidated tensordict takes a fast path that re-views every entry over the (cast) storage
+    # (base.py:_to_consolidated, listed with consolidate / from_consolidated among the mechanisms of this property):
+    # it must give the tensordict as it is now, whatever happened since consolidation
+    if consolidated:
+        try:
+            with time_limit(120):
+                moved = td.to("cpu")
+            got = by_path(obs_of(moved))
+        except TimeoutError as e:
+            raise Infra(f"to() timed out: {e}")
+        except Exception as e:  # noqa: BLE001
+            got = ["err", f"{type(e).__name__}: {str(e)[:120]}"]
+        now = by_path(obs_of(td))
+        # keys, dtypes, shapes, bytes, batch sizes and names (device changes by definition; the lock state of the result of
+        # `to` is not part of this property)
+        if got[0] != "err" and got[1] == now[1] and [n[:3] for n in got[0]] == [n[:3] for n in now[0]]:
+            run.oracle_ok("to_device_equals_now")
+        else:
+            from c11_canon import first_diff
+            run.oracle_fail("to_device_equals_now", case, f"to('cpu') of the consolidated tensordict differs from it: {first_diff(now, got)}; snapshot was {m_fresh}", f"to:{m_fresh}")
     return m_fresh
 
 
